@@ -63,9 +63,15 @@ func ForwardUserConn(udpConn *net.UDPConn, readCh <-chan *msg.UDPPacket, sendCh 
 		// buf[:n] will be encoded to string, so the bytes can be reused
 		udpMsg := NewUDPPacket(buf[:n], nil, remoteAddr)
 
-		select {
-		case sendCh <- udpMsg:
-		default:
+		// sendCh is closed by the owner's Close (server udp proxy, client sudp visitor) right after it closed udpConn:
+		// a datagram read just before must not be sent on the closed channel
+		if err = errors.PanicToError(func() {
+			select {
+			case sendCh <- udpMsg:
+			default:
+			}
+		}); err != nil {
+			return
 		}
 	}
 }
